@@ -156,6 +156,22 @@ func cmdRun(args []string) {
 	t1 := time.Now()
 	r.Explore(*workers)
 	printRun(r, time.Since(t1))
+	if forkStat != nil {
+		type kv struct {
+			k string
+			v int
+		}
+		var l []kv
+		for k, v := range forkStat {
+			l = append(l, kv{k, v})
+		}
+		sort.Slice(l, func(i, j int) bool { return l[i].v > l[j].v })
+		for i, e := range l {
+			if i < 15 {
+				fmt.Printf("  forks %6d at %s\n", e.v, e.k)
+			}
+		}
+	}
 }
 
 func printRun(r *Run, d time.Duration) {
